@@ -83,6 +83,67 @@ def _judge(part, model, sig, r, exp_dim, exp_mag, detail, snippet=None, cls=Scal
     return True
 
 
+MIXED = [
+    ("{length: m, depth: cm}", [("length", ["m", 1]), ("depth", ["cm", 1])]),
+    ("{length: km, depth: m, time: s^-1}", [("length", ["km", 1]), ("depth", ["m", 1]), ("time", ["s", -1])]),
+    ("{mass: g, length: cm^2, depth: m^-1}", [("mass", ["g", 1]), ("length", ["cm", 2]), ("depth", ["m", -1])]),
+]
+
+
+def _mixed_units(part, db):
+    """Operands whose quantity holds TWO units of one quantity type under two categories.  Arithmetic never
+    produces such a quantity (it unifies the units); it has to be obtained directly - and must then obey
+    the same algebra: a**n is the n-fold product, a*b ~ b*a, (a*b)/b ~ a, a/a is dimensionless."""
+    from collections import OrderedDict
+
+    from barril.units import Quantity
+
+    model = Model(db)
+    atoms = [Scalar(algebra.PRIMES[i], u, c) for i, (c, u) in enumerate(algebra.BASIS)]
+    for name, entries in MIXED:
+        mk = lambda: Scalar(Quantity.CreateDerived(OrderedDict((c, list(ue)) for c, ue in entries)), 60.0)  # noqa: E731
+        a = mk()
+        da = model.dimension(a.GetQuantity())
+        ma = model.base_magnitude(a.GetQuantity(), a.value)
+        sn = "from collections import OrderedDict\nfrom mc import worlds\nfrom mc.ref.dims import Model\nfrom barril.units import *\nfrom barril.units import Quantity\nwith worlds.world('posc') as db:\n    a = Scalar(Quantity.CreateDerived(OrderedDict(%r)), 60.0)\n    m = Model(db)\n    r = %%s\n    print(a, r, float(m.base_magnitude(r.GetQuantity(), r.value)))\n    assert abs(float(m.base_magnitude(r.GetQuantity(), r.value)) - %%r) <= 1e-12 * abs(%%r)\n" % (entries,)
+        for n in (1, 2, 3):
+            exp_dim = {k: v * n for k, v in da.items()}
+            try:
+                r = mk() ** n
+            except Exception as e:
+                part.violation("C04:mixed-units:%s ** %d:raised" % (name, n), {"error": repr(e)})
+                continue
+            _judge(part, model, "C04:mixed-units:%s ** %d" % (name, n), r, exp_dim, ma**n, {"a": repr(a)}, sn % ("a ** %d" % n, float(ma**n), float(ma**n)))
+        for label, f, dim, mag in (
+            ("a * a", lambda: mk() * mk(), {k: 2 * v for k, v in da.items()}, ma * ma),
+            ("a / a", lambda: mk() / mk(), {}, F(1)),
+            ("(a * a) / a", lambda: (mk() * mk()) / mk(), da, ma),
+        ):
+            try:
+                r = f()
+            except Exception as e:
+                part.violation("C04:mixed-units:%s: %s:raised" % (name, label), {"error": repr(e)})
+                continue
+            _judge(part, model, "C04:mixed-units:%s: %s" % (name, label), r, dim, mag, {"a": repr(a)}, sn % (label, float(mag), float(mag)))
+        for b in atoms:
+            db_ = model.dimension(b.GetQuantity())
+            mb = model.base_magnitude(b.GetQuantity(), b.value)
+            for label, f, dim, mag in (
+                ("a * b", lambda: mk() * b, _dim_op(da, db_, 1), ma * mb),
+                ("b * a", lambda: b * mk(), _dim_op(da, db_, 1), ma * mb),
+                ("a / b", lambda: mk() / b, _dim_op(da, db_, -1), ma / mb),
+                ("b / a", lambda: b / mk(), _dim_op(db_, da, -1), mb / ma),
+                ("(a * b) / b", lambda: (mk() * b) / b, da, ma),
+            ):
+                try:
+                    r = f()
+                except Exception as e:
+                    part.violation("C04:mixed-units:%s: %s with b = %r:raised" % (name, label, b), {"error": repr(e)})
+                    continue
+                _judge(part, model, "C04:mixed-units:%s: %s with b = %r" % (name, label, b), r, dim, mag, {"a": repr(a), "b": repr(b)})
+        part.count("mixed_unit_operands")
+
+
 def _pairs_task(task):
     idx, values_name = task
     states = _G[values_name]
@@ -205,6 +266,7 @@ def run(ctx):
             _judge(part, model, sig, res, exp_dim, exp_mag, {"history": algebra.describe(h)}, snippet)
 
         graph, transitions = algebra.explore(db, depth_graph, on_transition=on_transition, reciprocals=True)
+        _mixed_units(part, db)
         states = [s for s in graph if s.depth <= depth_pairs]
         part.sample({"deepest_history": algebra.describe(graph[-1].history), "result": repr(graph[-1].scalar)})
     _G["v1"] = states
